@@ -13,6 +13,22 @@ CHECKS = {
    note="Trusts: the library's class lookup tables as facts (C20 checks their coherence), TLC, the Json community module. Bounded lengths; long strings sampled."),
 }
 
+_WRAP_NOTE = ("Trusts: break opportunities from the real segmenter (C06), TLC, the Json module. Synthetic runs obey the shaper contract "
+              "(cluster boundaries are grapheme boundaries; a malformed class is out of scope). Vertical runs and negative letter spacing are not generated; "
+              "letter spacing on right-to-left runs is judged for conservation (C02) only. Bounded paragraph length; exhaustive within the bound in the thorough tier.")
+for _pid, _what in (("C02", "conservation (Contig, Piece, Sum, Cover, NonEmpty, termination/no panic)"),
+                    ("C03", "legal line ends (LegalEnd, NoIntraCluster, Mandatory, SplitOnlyWhenNecessary)"),
+                    ("C04", "width/greedy/truncation (Fits, Greedy, TruncGreedy, TruncCount, Truncator)"),
+                    ("C08", "visual order (VisPerm, VisL2 = rule L2 of UAX #9 in Bidi.tla, TrimTarget, TrimApplied)")):
+    CHECKS[_pid] = dict(
+        engine="wrap",
+        technique="TLA+ property spec (Wrap.tla, Bidi.tla) as a state-machine monitor (WrapV.tla: Prepare/Line actions, pos/k/done state); TLC validates traces of the real LineWrapper over an exhaustive small-scope enumeration of shaped paragraphs x configurations x widths",
+        category="model_checking", design_ref="DESIGN.md §5 C02-C04, C08",
+        text="Acceptance predicates for " + _what + " written in TLA+ over one wrapped line given the paragraph scenario; every WrapNextLine/WrapParagraph result of the real wrapper "
+             "on every synthetic paragraph up to a length bound (all cluster partitions, run splits, directions, policies, truncation settings, all widths) is a trace event that TLC steps through, evaluating every predicate at every step. "
+             "Small-scope exhaustiveness fits: the wrapper's carried-over state spans at most a few candidates, and all defects found (4, fixed) showed at <= 3 runes.",
+        note=_WRAP_NOTE)
+
 NOT_YET = {}
 NA = {
  "C05": "defined as agreement with the reference C HarfBuzz; no reference shaper (uharfbuzz/hb-shape) exists in this sealed sandbox and re-specifying HarfBuzz in TLA+ would make the spec the reference (DESIGN §6)",
